@@ -47,6 +47,17 @@ def renamed_helpers(facts, norm):
             m = rx_kind.search(raw[:400])
             if m and m.group(1) in ('Fn', 'AssocFn'):
                 present[np_] = p
+    # RE-SIGNED: a reference function that still exists under its name but takes a different number of parameters
+    # (`std_position(&self, k, cnst, p)` -> `std_position(&self, scale, p)`): positional reading of its call sites
+    # would be wrong, so it is treated like a new helper (spliced into its callers)
+    rx_nargs = re.compile(r'"nargs":(\d+)')
+    resigned = set()
+    for np_, sig in base.items():
+        if np_ in present and sig[0] is not None:
+            m = rx_nargs.search(facts._raw[present[np_]][0][:4000])
+            if m and int(m.group(1)) != sig[0]:
+                resigned.add(np_)
+    facts._resigned = resigned
     missing = {}
     for np_, sig in base.items():
         if np_ not in present:
@@ -167,6 +178,23 @@ def inline_once(d, bb, callee):
     d.setdefault('inlined', []).append(callee['path'])
 
 
+def _bind_self(facts, cd, norm, trait, self_ty):
+    """in the body of a trait default method, turn `<Self as Trait>::m(..)` into `<self_ty as Trait>::m(..)`"""
+    for blk in cd['blocks']:
+        t = blk['t']
+        if t['k'] != 'call' or t['f'].get('k') != 'const':
+            continue
+        c = t['f'].get('c', {})
+        if c.get('trait') != trait or not c.get('ga') or c['ga'][0] != 'Self' or c.get('res'):
+            continue
+        name = c.get('fn', '').rsplit('::', 1)[-1]
+        key = '<%s as %s>::%s' % (norm(self_ty), norm(trait), name)
+        paths = facts.norm_index.get(key, [])
+        c['ga'] = [self_ty] + list(c['ga'][1:])
+        if len(paths) == 1:
+            c['res'] = paths[0]
+
+
 def inline_new_helpers(facts, d, norm, depth=0, stack=()):
     """returns d with every call to a crate-local function that is not in the baseline inlined (recursively)"""
     base = facts.baseline
@@ -199,7 +227,8 @@ def inline_new_helpers(facts, d, norm, depth=0, stack=()):
                 if not cand:
                     continue
                 np_ = norm(cand)
-                if np_ in base or np_ in keep or np_ in stack or np_ == norm(d['path']):
+                if (np_ in base and np_ not in getattr(facts, '_resigned', ())) or np_ in keep or np_ in stack or \
+                        np_ == norm(d['path']):
                     continue
                 paths = facts.norm_index.get(np_, [])
                 if len(paths) != 1 or len(facts._raw[paths[0]]) != 1:
@@ -208,6 +237,10 @@ def inline_new_helpers(facts, d, norm, depth=0, stack=()):
                 cd = json.loads(facts._raw[paths[0]][0])
                 if cd['kind'] not in ('Fn', 'AssocFn') or cd.get('expn') or cd['nargs'] != len(t['args']):
                     continue
+                if cst.get('trait') and cst.get('ga') and cst['ga'][0] != 'Self':
+                    # a default method of a (new) trait called on a concrete type: calls on `Self` inside its body
+                    # are calls on that type — resolve them to the impl that provides them
+                    _bind_self(facts, cd, norm, cst['trait'], cst['ga'][0])
                 cd = inline_new_helpers(facts, cd, norm, depth + 1, stack + (norm(d['path']),))
                 inline_once(d, bb, cd)
                 changed = True
